@@ -218,7 +218,7 @@ class Path:
             if e == "other":
                 t = ("unknown", "proj")
             elif "f" in e:
-                t = _mk_field(t, e.get("n") if e.get("n") is not None else e["f"], e["f"])
+                t = _simplify(_mk_field(t, e.get("n") if e.get("n") is not None else e["f"], e["f"]))   # every step: `(x as Some).0.0` is somepayload(x).0
             elif "dc" in e:
                 t = ("variant", t, e.get("n") or e["dc"])
             elif "idx" in e:
